@@ -16,6 +16,7 @@ import os
 from ..engine import absint as A
 from ..engine import cfg as C
 from ..engine import q as Q
+from ..engine import tables as TB
 from ..engine import terms as T
 from ..engine.facts import CRATES, VERIF, AnchorMissing, callee_of
 
@@ -66,7 +67,12 @@ def _load(name):
 
 
 def fn_key(b):
-    """module-independent function key"""
+    """module-independent function key, prefixed by the crate"""
+    c = b.crate.replace("huginn_net_", "") if b.crate != "huginn_net" else "unified"
+    return c + "/" + _fn_key(b)
+
+
+def _fn_key(b):
     if b.kind == "Closure":
         par = b.path.rsplit("::{closure#", 1)
         return par[0].split("::", 1)[-1].split("<")[0].replace("impl ", "") + "::{closure#" + par[1]
@@ -74,6 +80,93 @@ def fn_key(b):
     if b.impl_self:
         return "%s::%s" % (b.impl_self.split("<")[0].split("::")[-1], b.name)
     return "::".join(p.split("::")[-2:])
+
+
+def _single_def(b, l):
+    ds = []
+    for i in sorted(b.reachable):
+        for j, s in enumerate(b.blocks[i]["s"]):
+            if s["k"] == "assign" and s["p"]["l"] == l and not s["p"]["pr"]:
+                ds.append(("s", s))
+        t = b.blocks[i]["t"]
+        if t["k"] == "call" and t["dest"]["l"] == l and not t["dest"]["pr"]:
+            ds.append(("c", t))
+    return ds[0] if len(ds) == 1 else None
+
+
+def srcname(b, op, depth=0):
+    """Source-level-ish, refactor-stable rendering of an operand: named locals / parameters / field paths / constants."""
+    if depth > 12:
+        return "?"
+    if "k" in op:
+        cv = T.const_value(op["k"])
+        if cv[2]:
+            return cv[2].rsplit("::", 1)[-1]
+        v = cv[1]
+        if isinstance(v, (int, str)) and not isinstance(v, bool):
+            return repr(v) if isinstance(v, str) else str(v)
+        return "const"
+    p = op.get("c") or op.get("m")
+    return srcname_place(b, p, depth)
+
+
+def srcname_place(b, p, depth=0):
+    l = p["l"]
+    name = b.local_name(l)
+    base = None
+    if name:
+        base = name
+    elif b.kind == "Closure" and l == 1:
+        base = "<env>"
+    else:
+        d = _single_def(b, l)
+        if d is None:
+            base = "_tmp"
+        elif d[0] == "s":
+            r = d[1]["r"]
+            if r["k"] == "use":
+                base = srcname(b, r["o"], depth + 1)
+            elif r["k"] in ("ref", "rawptr"):
+                base = srcname_place(b, r["p"], depth + 1)
+            elif r["k"] == "cast":
+                base = srcname(b, r["o"], depth + 1)
+            elif r["k"] == "agg" and r["ak"] == "adt" and (r.get("path") or "").startswith("std::ops::Range"):
+                ops = [srcname(b, o, depth + 1) for o in r["ops"]]
+                kind = r["path"].rsplit("::", 1)[-1]
+                base = {"Range": "%s..%s", "RangeFrom": "%s..", "RangeTo": "..%s", "RangeInclusive": "%s..=%s", "RangeToInclusive": "..=%s", "RangeFull": ".."}.get(kind, kind)
+                try:
+                    base = base % tuple(ops)
+                except TypeError:
+                    base = kind
+            elif r["k"] == "binop":
+                base = "(%s %s %s)" % (srcname(b, r["a"], depth + 1), r["op"], srcname(b, r["b"], depth + 1))
+            else:
+                base = "_expr"
+        else:
+            t = d[1]
+            cn = callee_of(t)
+            if T.is_identity_call(cn) and t["args"]:
+                base = srcname(b, t["args"][0], depth + 1)
+            else:
+                base = "%s(%s)" % (T.short(cn).split("::")[-1], ", ".join(srcname(b, a, depth + 1) for a in t["args"][:3]))
+    out = base
+    ups = dict((i, n) for i, n in (b.raw.get("upvars") or []))
+    for x in p["pr"]:
+        if x == "*":
+            continue
+        if isinstance(x, dict):
+            if "f" in x:
+                if out == "<env>":
+                    out = ups.get(x["f"], "upvar%d" % x["f"])
+                else:
+                    out += "." + str(x.get("n", x["f"]))
+            elif "i" in x:
+                out += "[%s]" % (b.local_name(x["i"]) or srcname_place(b, {"l": x["i"], "pr": []}, depth + 1))
+            elif "ci" in x:
+                out += "[%d]" % x["ci"]
+            elif "dc" in x:
+                out += " as " + x["dc"]
+    return out
 
 
 def _pp(t):
@@ -122,7 +215,7 @@ def discharge(P, ctxs, ob):
             L, I = ops[0], ops[1]
             ln, lo = ax.lin(L, g)
             inn, io = ax.lin(I, g)
-            detail = "index %s of %s" % (_pp(I), _pp(T.strip(L[2]) if L[0] == "unop" else L))
+            detail = "%s[%s]" % (_lenname(b, t["ops"][0]), srcname(b, t["ops"][1]))
             if g.le(inn, ln, lo - io - 1):
                 return True, "index < len by dominating conditions", detail
             # container is a tail sub-slice x[a..]:  i < len(x[a..])  <=>  a + i < len(x)   (for constant i)
@@ -210,14 +303,14 @@ def discharge(P, ctxs, ob):
                     if not g2.le(an, cn, -ao):
                         allok = False
                 if allok:
-                    return True, "every alternative of the range bound is within the length under its own conditions", "%s[%s]" % (_pp(T.strip(cont)), _pp(r0))
+                    return True, "every alternative of the range bound is within the length under its own conditions", "%s[%s]" % (srcname(b, t["args"][0]), srcname(b, t["args"][1]))
     if kind == "index":
         cont = args[0]
         idx = T.strip(args[1]) if len(args) > 1 else None
         cn = ("len", A.sid(cont))
         ax.struct_len(cont, cn, g, 0)
         is_str = "for str" in name or "String as" in name
-        detail = "%s[%s]" % (_pp(T.strip(cont)), _pp(idx) if idx else "?")
+        detail = "%s[%s]" % (srcname(b, t["args"][0]), srcname(b, t["args"][1]) if len(t["args"]) > 1 else "?")
         if "HashMap" in name or "BTreeMap" in name:
             return False, "map index panics on a missing key", detail
         ok = None
@@ -250,7 +343,7 @@ def discharge(P, ctxs, ob):
         cont = args[0]
         cn = ("len", A.sid(cont))
         r = T.strip(args[1]) if len(args) > 1 else None
-        detail = "%s.drain(%s)" % (_pp(T.strip(cont)), _pp(r) if r else "")
+        detail = "%s.drain(%s)" % (srcname(b, t["args"][0]), srcname(b, t["args"][1]) if len(t["args"]) > 1 else "")
         if r is not None and r[0] == "agg" and (r[2] or "").endswith("ops::RangeFull"):
             return True, "drain(..)", detail
         if r is not None and r[0] == "agg" and (r[2] or "").endswith("ops::RangeTo"):
@@ -264,8 +357,19 @@ def discharge(P, ctxs, ob):
         if k is not None and k > 0:
             return True, "constant non-zero chunk size", detail
         return False, "chunk/window size may be zero", detail
-    detail = "%s(%s)" % (T.short(name), ", ".join(_pp(T.strip(a)) for a in args[:2]))
+    detail = "%s(%s)" % (T.short(name), ", ".join(srcname(b, a) for a in t["args"][:2]))
     return False, "%s call" % kind, detail
+
+
+def _lenname(b, op):
+    """name of the container whose length operand `op` is (PtrMetadata(x) / const N)"""
+    if "k" in op:
+        return "[array;%s]" % srcname(b, op)
+    p = op.get("c") or op.get("m")
+    d = _single_def(b, p["l"]) if not b.local_name(p["l"]) else None
+    if d and d[0] == "s" and d[1]["r"]["k"] == "unop" and d[1]["r"]["op"] == "PtrMetadata":
+        return srcname(b, d[1]["r"]["o"])
+    return srcname(b, op)
 
 
 def _alts_with_sites(b, S, operand, blk, n):
@@ -417,23 +521,61 @@ def check_variant(P, b, h, blks, tab):
             if good and _loop_of_var(b, h, blks, v):
                 return True, e["variant"], "`%s` shrinks by >= %s bytes on every iteration that continues" % (e["variable"], e.get("min_advance", 1))
             continue
+        if kind == "fill":
+            # every back edge is dominated by a push on the vector whose length the loop test compares with a bound
+            pushes = []
+            for x in sorted(blks):
+                t = b.blocks[x]["t"]
+                if t["k"] == "call" and callee_of(t).endswith("Vec::<T, A>::push"):
+                    if srcname(b, t["args"][0]).split(".")[0] == e["vector"]:
+                        pushes.append(x)
+            okb = bool(pushes) and all(any(C.dominates(b, p, u) for p in pushes) for u in backs)
+            tested = False
+            for x in sorted(blks):
+                t = b.blocks[x]["t"]
+                if t["k"] == "switch" and any(s not in blks for s in b.succs(x)):
+                    for st in b.blocks[x]["s"]:
+                        if st["k"] == "assign" and st["r"]["k"] == "binop" and st["r"]["op"] in ("Lt", "Le", "Gt", "Ge"):
+                            term = S.rvalue(st["r"], x, len(b.blocks[x]["s"]))
+                            if any(A.len_arg(y) is not None for y in T.walk(term) if y[0] in ("call", "unop")):
+                                tested = True
+            if okb and tested:
+                return True, e["variant"], "`%s` grows by one push on every continuing iteration and its length is tested against a bound" % e["vector"]
+            continue
         if kind == "counter":
             var = [l for l in range(len(b.locals)) if b.local_name(l) in e["variables"]]
             if not var:
                 continue
             # every back edge is dominated by an increment (saturating_add(x, c>0)) of one of the variables, and the loop test compares a variable with a length
+            tested = _loop_tested_vars(b, h, blks, var)
             incs = []
-            for v in var:
+            for v in sorted(tested):
                 for (db, dj, full) in S.defs().get(v, []):
                     if db in blks:
                         term = T.strip(S.def_term(v, db, dj, 0))
                         if term[0] == "call" and term[1].endswith("saturating_add") and (T.fold_int(term[2][1]) or 0) > 0:
                             incs.append(db)
-            okb = all(any(C.dominates(b, i, u) or i == u for i in incs) for u in backs)
-            if incs and okb and _loop_test_on(b, S, h, blks, var):
+            okb = _cut_by(b, h, blks, set(incs), backs)
+            if incs and okb and tested:
                 return True, e["variant"], "one of %s increases on every back edge; loop test bounds it by a length" % e["variables"]
             continue
     return False, cands[0]["variant"], "reviewed variant `%s` no longer holds structurally" % cands[0]["variant"]
+
+
+def _cut_by(b, h, blks, cut, backs):
+    """every path header -> back edge inside the loop passes through a block of `cut`"""
+    seen, todo = set(), [h]
+    while todo:
+        x = todo.pop()
+        if x in seen or x in cut or x not in blks:
+            continue
+        seen.add(x)
+        if x in backs:
+            return False
+        for s in b.succs(x):
+            if s != h:
+                todo.append(s)
+    return True
 
 
 def _header_is(b, h, blks, e):
@@ -473,6 +615,37 @@ def _slice_advance(P, b, S, term, v, e):
     if e.get("via_callee"):
         return T.has_call(term, e["via_callee"])
     return False
+
+
+def _loop_tested_vars(b, h, blks, var):
+    """variables of `var` compared (Lt/Le/Gt/Ge) with a length in a test that can leave the loop"""
+    out = set()
+    for x in sorted(blks):
+        t = b.blocks[x]["t"]
+        if t["k"] != "switch" or all(s in blks for s in b.succs(x)):
+            continue
+        for st in b.blocks[x]["s"]:
+            if st["k"] == "assign" and st["r"]["k"] == "binop" and st["r"]["op"] in ("Lt", "Le", "Gt", "Ge"):
+                roots, haslen = set(), False
+                for o in (st["r"]["a"], st["r"]["b"]):
+                    pl = o.get("c") or o.get("m")
+                    if pl is None:
+                        continue
+                    r = TB._root_local(b, pl["l"])
+                    roots.add(r)
+                    # a length: defined by a call to len() or PtrMetadata
+                    for blk in b.blocks:
+                        tt = blk["t"]
+                        if tt["k"] == "call" and tt.get("dest") and tt["dest"]["l"] == pl["l"] and callee_of(tt).endswith("::len"):
+                            haslen = True
+                        # `offset.saturating_add(k) <= len`: the tested quantity is monotone in offset
+                        if tt["k"] == "call" and tt.get("dest") and tt["dest"]["l"] == r and callee_of(tt).endswith("saturating_add"):
+                            a0 = tt["args"][0].get("c") or tt["args"][0].get("m")
+                            if a0 is not None:
+                                roots.add(TB._root_local(b, a0["l"]))
+                if haslen:
+                    out |= {r for r in roots if r in var}
+    return out
 
 
 def _loop_test_on(b, S, h, blks, var):
